@@ -1,6 +1,6 @@
 """Contracts on bitcoinlib/scripts.py: push encoding, script numbers, stack operations."""
 import z3
-from pyvc.api import contract, Int, Bytes, Bool, ListOf, implies, T
+from pyvc.api import contract, Int, Bytes, Bool, ListOf, implies, T, RecordOf, Const
 from spec import script as sp
 
 
@@ -199,3 +199,49 @@ def _csv_contract():
 
 _cltv_contract()
 _csv_contract()
+
+
+# --- Script.serialize: command list -> bytes (C18: "serializing ... reproduces the same bytes", shortest push for every item) --------
+
+def _serialize_case(kinds):
+    """one case per vector of command kinds ('o' opcode, 'd' data item); every opcode value, every data item of every length"""
+    from bitcoinlib.scripts import Script
+    name = 'cmds-' + (kinds or 'none')
+    params = {'self': RecordOf(Script, commands=Const(None), _raw=Const(b''))}
+    for i, k in enumerate(kinds):
+        params['c%d' % i] = Int(0, 255) if k == 'o' else Bytes
+
+    def items(**env):
+        return [env['c%d' % i] for i in range(len(kinds))]
+
+    def init(**env):
+        env['self'].commands = items(**env)
+
+    def requires(**env):
+        ok = True
+        for i, k in enumerate(kinds):
+            if k == 'd':
+                ok = ok and len(env['c%d' % i]) <= 0xffff
+        return ok
+
+    def result_is(**env):
+        return sp.serialize_commands(items(**env))
+
+    def ensures(**env):
+        return env['self']._raw == env['result']
+
+    def prepare(**env):
+        return {'self': Script(commands=list(items(**env)))}
+
+    d = {'params': params, 'init': init, 'requires': requires, 'result_is': result_is, 'ensures': ensures, 'prepare': prepare,
+         'init_after_prepare': True,
+         '__doc__': 'Script.serialize of %d commands of kinds %s is the concatenation of opcode bytes and canonical pushes' % (len(kinds), kinds or '-')}
+    return contract('bitcoinlib.scripts.Script.serialize', case=name, props=('C18',))(type('serialize_' + name, (), d))
+
+
+def _kind_vectors(n):
+    import itertools
+    return [''.join(v) for k in range(n + 1) for v in itertools.product('od', repeat=k)]
+
+
+SERIALIZE_CASES = [_serialize_case(kv)._contract.key for kv in _kind_vectors(3)]
